@@ -26,7 +26,7 @@ INVS = {
     "C08": ["C08_NoRunAfterFailedDep", "C08_FailFast", "C08_FailFastNoNewTask", "C08_Continue", "C08_VerdictSound",
             "C08_NoRunningAfterCompleted"],
     "C10": ["C10_AllTerminal", "C10_NoGhosts", "C10_SameSet", "C10_FinishedFaithful"],
-    "C11": ["C11_AllTerminal", "C11_StoreMatches", "C11_RejectAfter", "C11_GracefulRunsOut", "C11_ForcedCancels",
+    "C11": ["C11_AllTerminal", "C11_StoreMatches", "C11_RejectAfter", "C11_GracefulRunsOut", "C11_ForcedCancels", "C11_ForcedStops",
             "C11_PersistWithinInterval"],
     "C12": ["C12_KeepsUnfinished", "C12_NoSettingsNoRemoval", "C12_NewestFirstClosure", "C12_CountBound", "C12_PeriodBound",
             "C12_UndefinedPurged", "C12_ThreeViewsAgree"],
@@ -343,6 +343,11 @@ def engine(tier):
                 scripts += simulate_scripts(work, cfg, module, num, depth, seed(), tag=cfg[4:-4].lower())
             for i, sc in enumerate(scripts):
                 sc["seed"] = seed() * 1000 + i
+                # a third of the life-cycle scripts run on a slow data store (saves in flight); explicit saves racing with the
+                # persist loop are not part of those scripts
+                if sc["id"].startswith("life-") and i % 3 == 0:
+                    sc["slow"] = True
+                    sc["steps"] = [s for s in sc["steps"] if s["op"] != "save"]
             via_mix(scripts, seed())
             t1 = time.time()
             traces, crashes = execute(driver, scripts, d)
